@@ -71,6 +71,13 @@ CHECKS["C15"] = dict(
     ref="DESIGN.md 5 C15",
 )
 
+CHECKS["C14"] = dict(
+    text="Seeded histories of addProfile / addProfiles / removeProfile / removeProfile(all)+re-add / defaultProfiles assignments / rejected removals on a private Profiles registry, with six custom profiles that add properties, redefine existing ones and define macros overriding token macros, general macros and macros of built-in profiles (one callable validator); a 40-pair verdict battery, the known names, the profile list and the per-profile property lists are compared after every step with every earlier state of equal contents in the run, and with a brand-new registry whenever only the built-ins are registered.",
+    note="Contents = ordered list of registered names (fixed definition per custom name); re-adding a registered name is observed. Sampling, not proof.",
+    technique="deterministic simulation: seeded registry histories with a recurrence (same contents => same observable behaviour) oracle and fresh-replica comparison",
+    ref="DESIGN.md 5 C14",
+)
+
 PENDING = {'C01': "check not built yet in this round (claimed by DESIGN.md section 2; will move to 'checks' when its simulation world exists)", 'C03': "check not built yet in this round (claimed by DESIGN.md section 2; will move to 'checks' when its simulation world exists)", 'C08': "check not built yet in this round (claimed by DESIGN.md section 2; will move to 'checks' when its simulation world exists)", 'C09': "check not built yet in this round (claimed by DESIGN.md section 2; will move to 'checks' when its simulation world exists)", 'C10': "check not built yet in this round (claimed by DESIGN.md section 2; will move to 'checks' when its simulation world exists)", 'C11': "check not built yet in this round (claimed by DESIGN.md section 2; will move to 'checks' when its simulation world exists)", 'C12': "check not built yet in this round (claimed by DESIGN.md section 2; will move to 'checks' when its simulation world exists)", 'C14': "check not built yet in this round (claimed by DESIGN.md section 2; will move to 'checks' when its simulation world exists)", 'C15': "check not built yet in this round (claimed by DESIGN.md section 2; will move to 'checks' when its simulation world exists)", 'C16': "check not built yet in this round (claimed by DESIGN.md section 2; will move to 'checks' when its simulation world exists)", 'C17': "check not built yet in this round (claimed by DESIGN.md section 2; will move to 'checks' when its simulation world exists)", 'C19': "check not built yet in this round (claimed by DESIGN.md section 2; will move to 'checks' when its simulation world exists)"}
 
 
